@@ -13,6 +13,9 @@ META = {
     "level": "Decides necessary conditions of 'equal => same hash, unequal => strictly ordered': (R1) CPV.__hash__ reads only attributes that every truthy path of CPV.__eq__ compares; (R2) the hash stored for an atom derives only from attributes in its equality list; (R3) atom.__cmp__ reads exactly the attributes equality compares (cpvstr == category+package+version+revision); (R4) each rich comparison of Revision and CPV uses its own operator with self on the left in every arm, and CPV's ordering reads the attributes its equality reads. Does NOT decide hash/order equality for concrete values.",
     "note": "library facts: snakeoil GenericEquality compares __attr_comparison__; reflective_hash returns the stored attribute; inject_richcmp_methods_from_cmp derives <,<=,>,>= from __cmp__. Attributes are assumed to vary independently.",
 }
+META["technique"] += "; " + 'effect analysis on ==/ordering/hash methods'
+META["level"] += " Added after the second round of independent changes: " + '(R5) ver_cmp and every ==, ordering and hash method of CPV, Revision and atom write only to objects created by the call.'
+META["technique"] += "; " + 'generic pack G on the anchored files (optional-flag shift, closures outliving a loop iteration, single-pass iterables consumed twice, %-templates built from data, in-place writes to class-level / memoised objects, generators mutating what they yielded, memo keys that are projections)'
 
 OPS = {"__lt__": ast.Lt, "__le__": ast.LtE, "__gt__": ast.Gt, "__ge__": ast.GtE, "__eq__": ast.Eq}
 CPVSTR_EQUIV = {"category", "package", "version", "revision"}
